@@ -16,15 +16,19 @@ type EvoPair struct {
 }
 
 func evoMessage(name, kind string, v2 bool) *Def {
-	d := &Def{Kind: "message", Name: name, Fields: []Field{{Name: "x", Type: prim("int32"), Index: 1}, {Name: "s", Type: prim("string"), Index: 2}}}
+	// z has an index above the field that gets deprecated: whatever the older
+	// reader does with a deprecated field the peer still sends must not cost it
+	// z. Added fields get fresh indices above every existing one (the property's
+	// precondition: a reader cannot skip an unknown field in the middle).
+	d := &Def{Kind: "message", Name: name, Fields: []Field{{Name: "x", Type: prim("int32"), Index: 1}, {Name: "s", Type: prim("string"), Index: 2}, {Name: "z", Type: prim("uint16"), Index: 9}}}
 	switch kind {
 	case "add-int":
 		if v2 {
-			d.Fields = append(d.Fields, Field{Name: "y", Type: prim("int32"), Index: 3})
+			d.Fields = append(d.Fields, Field{Name: "y", Type: prim("int32"), Index: 10})
 		}
 	case "add-two":
 		if v2 {
-			d.Fields = append(d.Fields, Field{Name: "t", Type: prim("string"), Index: 3}, Field{Name: "u", Type: prim("uint8"), Index: 7})
+			d.Fields = append(d.Fields, Field{Name: "t", Type: prim("string"), Index: 11}, Field{Name: "u", Type: prim("uint8"), Index: 200})
 		}
 	case "deprecated-still-sent":
 		if !v2 {
